@@ -2,6 +2,7 @@ import HpxVerif.Model.Hash
 import HpxVerif.Lemmas.F64Lemmas
 import HpxVerif.Lemmas.BitsLemmas
 import HpxVerif.Props.C18
+import HpxVerif.Lemmas.LayerBmi
 
 set_option autoImplicit false   -- an unknown identifier in a statement is an error, never a new variable
 
@@ -202,5 +203,52 @@ example : Small 0x3FF4000000000000 ∧ Small 0x3FE0000000000000 ∧
   · unfold Small sgnF expF manF; decide
   · decide +kernel
   · decide +kernel
+
+
+/-! ## every build: the statements above that carry `cfg.bmi = false`, for every `cfg` (LUT tables or BMI2) -/
+
+section AnyBuild
+open Hpx Hpx.F64 Hpx.Layer Hpx.LayerBmi
+
+theorem hashV2_noBmi {α : Type} [Num α] (cfg : Cfg) (d : Nat) (lon lat : α) : Hash.hashV2 cfg d lon lat = Hash.hashV2 (noBmi cfg) d lon lat := by
+  unfold Hash.hashV2; simp only [buildHashFromParts_eq cfg]
+
+theorem backend_noBmi (cfg : Cfg) (d d0h u v : Nat) : backend cfg d d0h u v = backend (noBmi cfg) d d0h u v := by
+  unfold backend
+  simp only [buildHashFromParts_eq cfg]
+
+/-! ## C02 -/
+
+theorem backend_prefix_any_build (cfg : Cfg) (d d' d0h u v : Nat) (hd1 : 1 ≤ d) (hdd : d ≤ d')
+    (hd' : d' ≤ 29) (hu : Small u) (hv : Small v)
+    (hi : truncU 32 (expAdd u ((d' - 1 : Nat) : Int)) ≤ 2 ^ d') (hj : truncU 32 (expAdd v ((d' - 1 : Nat) : Int)) ≤ 2 ^ d') :
+    ∃ c', backend cfg d' d0h u v = some c' ∧ backend cfg d d0h u v = some (c' >>> (2 * (d' - d))) := by
+  rw [backend_noBmi cfg d', backend_noBmi cfg d]
+  exact Hpx.C02.backend_prefix (noBmi cfg) (noBmi_bmi cfg) d d' d0h u v hd1 hdd hd' hu hv hi hj
+
+theorem hash_prefix_any_build (cfg : Cfg) (lon lat : Float) (d d' : Nat) (hd1 : 1 ≤ d) (hdd : d ≤ d')
+    (hd' : d' ≤ 29) (hlat : Proj.checkLat lat = true)
+    (hu : Small (F.bits ((Hash.d0hLhInD0c lon lat).2.2 + (Hash.d0hLhInD0c lon lat).2.1)))
+    (hv : Small (F.bits ((Hash.d0hLhInD0c lon lat).2.2 - (Hash.d0hLhInD0c lon lat).2.1)))
+    (hi : truncU 32 (expAdd (F.bits ((Hash.d0hLhInD0c lon lat).2.2 + (Hash.d0hLhInD0c lon lat).2.1)) ((d' - 1 : Nat) : Int)) ≤ 2 ^ d')
+    (hj : truncU 32 (expAdd (F.bits ((Hash.d0hLhInD0c lon lat).2.2 - (Hash.d0hLhInD0c lon lat).2.1)) ((d' - 1 : Nat) : Int)) ≤ 2 ^ d') :
+    ∃ c', Hash.hashV2 cfg d' lon lat = some c' ∧ Hash.hashV2 cfg d lon lat = some (c' >>> (2 * (d' - d))) := by
+  rw [hashV2_noBmi cfg d', hashV2_noBmi cfg d]
+  exact Hpx.C02.hash_prefix (noBmi cfg) (noBmi_bmi cfg) lon lat d d' hd1 hdd hd' hlat hu hv hi hj
+
+theorem backend_depth0_any_build (cfg : Cfg) (hdbg : cfg.debug = false) (d0h u v : Nat) :
+    backend cfg 0 d0h u v = some d0h := by
+  rw [backend_noBmi]
+  exact Hpx.C02.backend_depth0 (noBmi cfg) (noBmi_bmi cfg) hdbg d0h u v
+
+theorem backend_top_bits_any_build (cfg : Cfg) (d' d0h u v c' : Nat) (hd1 : 1 ≤ d') (hd' : d' ≤ 29)
+    (hi : truncU 32 (expAdd u ((d' - 1 : Nat) : Int)) ≤ 2 ^ d') (hj : truncU 32 (expAdd v ((d' - 1 : Nat) : Int)) ≤ 2 ^ d')
+    (h : backend cfg d' d0h u v = some c') : c' >>> (2 * d') = d0h := by
+  rw [backend_noBmi] at h
+  exact Hpx.C02.backend_top_bits (noBmi cfg) (noBmi_bmi cfg) d' d0h u v c' hd1 hd' hi hj h
+
+/-! ## C01 -/
+
+end AnyBuild
 
 end Hpx.C02
